@@ -1833,6 +1833,10 @@ func NewRaw(json string) Node {
 	if err != 0 {
 		return *newError(err, err.Message())
 	}
+	if skipBlank(parser.s, parser.p) >= 0 {
+		/* only white space may follow the value */
+		return *newError(types.ERR_INVALID_CHAR, types.ERR_INVALID_CHAR.Message())
+	}
 	it := switchRawType(parser.s[start])
 	if it == _V_NONE {
 		return Node{}
@@ -1848,6 +1852,10 @@ func NewRawConcurrentRead(json string) Node {
 	start, err := parser.skip()
 	if err != 0 {
 		return *newError(err, err.Message())
+	}
+	if skipBlank(parser.s, parser.p) >= 0 {
+		/* only white space may follow the value */
+		return *newError(types.ERR_INVALID_CHAR, types.ERR_INVALID_CHAR.Message())
 	}
 	it := switchRawType(parser.s[start])
 	if it == _V_NONE {
